@@ -158,6 +158,7 @@ def run_check(prop, harness_name, tier, seed=0, budget_s=None, mutant=None, jobs
     order.sort(key=lambda i: -getattr(mod, "weight", lambda s: len(str(s)))(specs[i]))
     ctx = mp.get_context("fork")
     harness_error = None
+    abandoned = 0
     try:
         with ctx.Pool(nproc, initializer=_worker_init, initargs=(harness_name, scratch, mutant)) as pool:
             pending = []
@@ -166,12 +167,15 @@ def run_check(prop, harness_name, tier, seed=0, budget_s=None, mutant=None, jobs
             inflight = 0
             results_q = []
 
+            owner = {}
+
             def submit(i, stack):
                 nonlocal inflight
                 states[i].pending += 1
                 inflight += 1
                 ar = pool.apply_async(_worker_task, ((i, specs[i], props, stack, chunk, timeout_ms, deadline),))
                 pending.append(ar)
+                owner[id(ar)] = (i, len(stack) if stack else 1)
 
             while queue or pending:
                 while queue and inflight < nproc * 2:
@@ -181,10 +185,15 @@ def run_check(prop, harness_name, tier, seed=0, budget_s=None, mutant=None, jobs
                 if not done:
                     now = time.time()
                     if now > deadline + 180:
-                        # a worker is stuck far beyond the budget: give up on what is still running (reported, never silent)
-                        harness_error = "budget overrun: %d task(s) still running %ds after the deadline were abandoned" % (len(pending), int(now - deadline))
-                        for i2, _stk in queue:
-                            states[i2].leftover += 1
+                        # a path is stuck far beyond the budget (slow solver queries): what is still running is abandoned and
+                        # counted as unexplored - reported (exhaustive: false, BUDGET line), never silent, never a pass of those paths
+                        for ar2 in pending:
+                            i2, npre = owner.get(id(ar2), (None, 1))
+                            if i2 is not None:
+                                states[i2].leftover += npre
+                        for i2, stk in queue:
+                            states[i2].leftover += len(stk) if stk else 1
+                        abandoned = len(pending)
                         pool.terminate()
                         break
                     if not quiet and now - last_progress > 60:
@@ -248,6 +257,7 @@ def run_check(prop, harness_name, tier, seed=0, budget_s=None, mutant=None, jobs
         "harness_error": harness_error,
         "budget_s": budget_s,
         "mutant": mutant,
+        "abandoned_tasks": abandoned,
     }
 
 
@@ -467,6 +477,7 @@ def finish(res, max_replays_per_kind=3):
             "counterexamples_not_reproduced": len(not_reproduced),
             "trace_mismatches": len(mismatches),
             "budget_s": res["budget_s"],
+            "tasks_abandoned_after_budget": res.get("abandoned_tasks", 0),
         },
         "assumptions": getattr(mod, "assumptions", lambda: [])() + COMMON_ASSUMPTIONS,
     }
